@@ -445,6 +445,143 @@ pub fn plans(prop: &str, thorough: bool) -> Vec<Plan> {
     v
 }
 
+// ---------------------------------------------------------------------------------------------
+// C03: the reported paths after a history of other calls on the same thread
+
+const HIST_DOCS: [&str; 2] = [r#"{"a":[10,20,{"b":30}],"c":{"d":[[1,2],[3]]}}"#, r#"[[1,2,3],{"a":{"a":1}},"x"]"#];
+const HIST_QUERIES: [&str; 10] = ["$.a[-1].b", "$..*", "$[?@.a]", "$.a[", "$.", "$[?@ > ]", "", "$[?length(@.a,@.b)==1]", "$[?@.n==9007199254740993]", "$.zz"];
+const PROBES: [&str; 7] = ["$.a[-1].b", "$[0][::-1]", "$..[0]", "$..a", "$[?@.a].a", "$.*.*", "$.c.d[-2:][-1]"];
+
+/// entry 0..5: query, query_with_path, query_only_path, parse_json_path, reference, js_path_process on a fresh parse
+fn hist_call(entry: usize, q: &str, doc: &Value) {
+    use jsonpath_rust::query::queryable::Queryable;
+    use jsonpath_rust::JsonPath;
+    let _ = std::panic::catch_unwind(std::panic::AssertUnwindSafe(|| match entry {
+        0 => {
+            let _ = doc.query(q);
+        }
+        1 => {
+            let _ = doc.query_with_path(q);
+        }
+        2 => {
+            let _ = doc.query_only_path(q);
+        }
+        3 => {
+            let _ = jsonpath_rust::parser::parse_json_path(q);
+        }
+        4 => {
+            let _ = doc.reference(q.to_string());
+        }
+        _ => {
+            if let Ok(jq) = jsonpath_rust::parser::parse_json_path(q) {
+                let _ = jsonpath_rust::query::js_path_process(&jq, doc);
+            }
+        }
+    }));
+}
+
+/// one history (on the calling thread), then every probe through the three path-reporting entry points
+fn hist_probe(run: &Run, acc: &mut Acc, docs: &[Value], hist: &[(usize, usize, usize)]) {
+    use crate::checks::common::{check_obs, DocCtx, Mode, Outcome};
+    for (e, q, d) in hist {
+        hist_call(*e, HIST_QUERIES[*q], &docs[*d]);
+    }
+    acc.states += 1;
+    for (di, doc) in docs.iter().enumerate() {
+        let dc = DocCtx::new(doc);
+        for p in PROBES {
+            let ast = crate::model::parse::rfc_parse(p).expect("probe is valid").0;
+            let case = || json!({"kind": "path-history", "class": "paths after a history of calls", "history": hist.iter().map(|(e, q, d)| json!([e, HIST_QUERIES[*q], d])).collect::<Vec<_>>(), "probe": p, "doc": di});
+            let mut tmp = Acc::new();
+            let outs = [imp::run_with_path(p, doc, &dc.am), match imp::parse(p) {
+                Ok(Ok(jq)) => imp::run_parsed(&jq, doc, &dc.am),
+                _ => ImplOut::Err("parse".into()),
+            }];
+            acc.transitions += 1;
+            for out in &outs {
+                match check_obs(run, &mut tmp, p, &ast, &dc, out, Mode::NodesAndPaths, "paths after a history of calls") {
+                    Outcome::Violation => {
+                        acc.viol(format!("after the calls {:?} on this thread: {}", hist.iter().map(|(e, q, d)| (["query", "query_with_path", "query_only_path", "parse_json_path", "reference", "js_path_process"][*e], HIST_QUERIES[*q], *d)).collect::<Vec<_>>(), tmp.first_violation().unwrap_or_default()), case());
+                        return;
+                    }
+                    Outcome::Agree(k) => {
+                        acc.evals += 1;
+                        if k > 0 {
+                            acc.nontrivial += 1;
+                        }
+                    }
+                    _ => {}
+                }
+            }
+            // query_only_path: the same paths as query_with_path reports
+            if let (ImplOut::Ok(v), Ok(Ok(paths))) = (&outs[0], imp::run_only_path(p, doc)) {
+                if v.iter().map(|x| x.1.clone()).collect::<Vec<_>>() != paths {
+                    acc.viol(format!("after the calls {:?}: query_only_path({}) returns {:?}, query_with_path {:?}", hist, p, paths, v), case());
+                    return;
+                }
+            }
+        }
+    }
+}
+
+fn history_paths(run: &Run, thorough: bool) -> Acc {
+    let docs: Vec<Value> = HIST_DOCS.iter().map(|d| serde_json::from_str(d).unwrap()).collect();
+    let mut alphabet = vec![];
+    for e in 0..6 {
+        for q in 0..HIST_QUERIES.len() {
+            alphabet.push((e, q, (e + q) % 2));
+        }
+    }
+    let mut hists: Vec<Vec<(usize, usize, usize)>> = vec![vec![]];
+    for a in &alphabet {
+        hists.push(vec![*a]);
+    }
+    for a in &alphabet {
+        for b in &alphabet {
+            hists.push(vec![*a, *b]);
+        }
+    }
+    if thorough {
+        // depth 3 over the calls that can fail (the rejected query strings) and one that succeeds per entry point
+        let small: Vec<(usize, usize, usize)> = alphabet.iter().filter(|(_, q, _)| [0usize, 3, 5, 7].contains(q)).cloned().collect();
+        for a in &small {
+            for b in &small {
+                for c in &small {
+                    hists.push(vec![*a, *b, *c]);
+                }
+            }
+        }
+    }
+    // every history on its own fresh thread (thread-local state starts empty; a replay needs only the history)
+    let mut acc = hists
+        .par_iter()
+        .map(|h| {
+            let mut acc = Acc::new();
+            std::thread::scope(|s| {
+                s.spawn(|| hist_probe(run, &mut acc, &docs, h)).join().expect("history thread");
+            });
+            acc
+        })
+        .reduce(Acc::new, Acc::merge);
+    acc.bump("call_histories", hists.len() as u64);
+    acc
+}
+
+pub fn replay_path_history(case: &Value, run: &Run) -> Acc {
+    let mut acc = Acc::new();
+    let docs: Vec<Value> = HIST_DOCS.iter().map(|d| serde_json::from_str(d).unwrap()).collect();
+    let mut hist = vec![];
+    for h in case["history"].as_array().cloned().unwrap_or_default() {
+        let q = HIST_QUERIES.iter().position(|x| Some(*x) == h[1].as_str()).unwrap_or(0);
+        hist.push((h[0].as_u64().unwrap_or(0) as usize, q, h[2].as_u64().unwrap_or(0) as usize));
+    }
+    println!("history: {:?}", hist);
+    std::thread::scope(|s| {
+        s.spawn(|| hist_probe(run, &mut acc, &docs, &hist)).join().expect("history thread");
+    });
+    acc
+}
+
 pub fn run(prop: &str, tier: &str) -> i32 {
     let run = Run::new(prop, tier);
     let check: fn(&Edge, &Run, &mut Acc) = match prop {
@@ -478,10 +615,17 @@ pub fn run(prop: &str, tier: &str) -> i32 {
         eprintln!("  {}", labels.last().unwrap());
         total = total.merge(acc);
     }
+    if prop == "C03" {
+        let t0 = std::time::Instant::now();
+        let acc = history_paths(&run, run.thorough());
+        labels.push(format!("paths after call histories: {} histories x {} probes x 3 entry points, {:.1}s", acc.extra.get("call_histories").copied().unwrap_or(0), PROBES.len() * HIST_DOCS.len(), t0.elapsed().as_secs_f64()));
+        eprintln!("  {}", labels.last().unwrap());
+        total = total.merge(acc);
+    }
     let rule = match prop {
         "C01" => "one case = one edge (nodelist state, segment) of the product of the real evaluator and the RFC reference model; states de-duplicated per document on the evaluator's full observable state; non-trivial = the model selects at least one node",
         "C02" => "one case = one edge (nodelist state, segment); non-trivial = the result has at least two nodes, so its order is constrained",
-        _ => "one case = one edge (nodelist state, segment) plus one re-query per distinct reported path; non-trivial = at least one (node, path) pair is reported",
+        _ => "one case = one edge (nodelist state, segment) plus one re-query per distinct reported path; plus: every history of up to two calls (six entry points x valid and rejected query strings) on a fresh thread followed by probe queries whose paths are checked; non-trivial = at least one (node, path) pair is reported",
     };
     run.finish(
         total,
